@@ -5,6 +5,7 @@ package main
 // concrete arguments: the library is the trusted base, the module's code is what is being evaluated.
 
 import (
+	"encoding/json"
 	"go/constant"
 	"go/token"
 	"go/types"
@@ -335,6 +336,8 @@ func (ip *Interp) model2(fn *ssa.Function, name string, args []AV) (AV, bool) {
 			return TupleV{NilV{}, ip.errVal(err.Error())}, true
 		}
 		return TupleV{ip.bytesAV(b), NilV{}}, true
+	case "encoding/json.Valid":
+		return kBool(json.Valid(avBytes(args[0]))), true
 	// ---- time
 	case "(time.Time).Format":
 		return kStr(ip.timeOf(args[0]).T.Format(s(1))), true
